@@ -39,7 +39,7 @@ LEVEL_TEXT = ('Every generated program is scanned exactly (what to_code prints i
 LEVEL_NOTE = 'Trusted: ast.parse of the to_code text; the construct counter instrumentation in this module.'
 
 GEN = {'def_extras': 60, 'excl': ('no_try_else', 'no_for_target_rebind', 'no_lambda_capture_across_rebind', 'no_impure_chain_middle',
-                                   'no_jump_in_handler_with_finally')}
+                                   )}
 _KEEP = []
 FORBIDDEN = (ast.If, ast.While, ast.For, ast.Break, ast.Continue, ast.IfExp, ast.BoolOp)
 HELPER_RETURNING = re.compile(r'^(get_state|loop_test|extra_test)(_\d+)?$')
